@@ -277,3 +277,11 @@ def param_by_type(f, substr, default=None):
             if b:
                 return b[0]
     return default
+
+
+def main_match(fn_body, ty_suffix):
+    """the dispatch match on ty_suffix: the one with the most arms (helper closures / inlined helpers may contain smaller ones)"""
+    ms = matches_on(fn_body, ty_suffix)
+    if not ms:
+        return None
+    return max(ms, key=lambda m: len(m["arms"]))
